@@ -214,7 +214,14 @@ pub fn c12_process_case(ctx: &Ctx, env: &RealEnv, dir: &Path, case: u64, seed: u
         return;
     }
     if out.timed_out {
-        rep.violation("does-not-terminate", "n2 still running after 30 s on a tiny input", mk());
+        // a tiny input normally takes milliseconds; before calling it a hang, try once more with a longer watchdog
+        let inv2 = RInv { timeout_s: 90, ..inv.clone() };
+        let again = run_real(env, &w, &inv2);
+        if again.timed_out {
+            rep.violation("does-not-terminate", "n2 still running after 30 s and, on a second attempt, after 90 s on a tiny input", mk());
+        } else {
+            rep.inconclusive.push(format!("case {}: watchdog fired once (30 s) but the input terminates on a second attempt", case));
+        }
         return;
     }
     match out.exit {
